@@ -64,7 +64,11 @@ class C19(Check):
                   "value-level semantics of the full DSL (containers hold strings), parsing. F-C19a (const in a sandbox) was repaired by 03364e3; known: "
                   "F-C19b (sandboxed console serialises hidden fields of a returned object).")
     trusted_base = [
-        "gen/c19_sandbox_guards.py (anchored regexes + brace matching over expression.cpp, vmops.hpp, object.cpp, scriptframe.cpp and the native registrations)",
+        "gen/c19_sandbox_guards.py: guards recognised semantically (clang-14 JSON AST of expression.cpp, token-level statement/condition normaliser as "
+        "fallback and for object.cpp/reference.cpp; anchored regexes for the native registrations); its self-test corpus gen/c19_selftest/ "
+        "(equivalent spellings recognised, removed/weakened guards rejected) runs on every check",
+        "which error a refusal is (sandbox / hidden / other) is read from message texts and only counted; the verdict uses value-vs-error, "
+        "the snapshot diff, planted markers and counting wrappers around every native without the side-effect-free flag",
         "modelled, not verified: what each native function does (a parameter of the model: name -> (side-effect-free flag, arbitrary state transformer)); "
         "the hypothesis `SafeNativesPure` is exercised, not proved, by calling every reflected native with live objects and diffing deep snapshots",
         "abstract values: containers hold strings; operators reduced to integers/strings (operators never touch state in either)",
@@ -84,9 +88,17 @@ class C19(Check):
         spec = importlib.util.spec_from_file_location("c19_sandbox_guards", _GEN)
         mod = importlib.util.module_from_spec(spec)
         spec.loader.exec_module(mod)
+        import sys
+        thorough = ("thorough" in sys.argv) or os.environ.get("VERIF_TIER") == "thorough"
+        # the translator's own self-test: equivalent spellings must be recognised, removed/weakened guards must not
+        # (token-level extractor always; the clang-AST extractor over the compilable fragments in the thorough tier)
+        fails, n = mod.selftest(use_ast=thorough)
+        self.translator_selftest = {"expectations": n, "failures": fails, "with_ast": thorough}
+        if fails:
+            raise core.TieBroken("translator:C19:self-test", "\n".join(fails))
         try:
             with core.Lock("lake"):
-                t = mod.generate(core.REPO, _GEN_OUT)
+                t = mod.generate(core.REPO, _GEN_OUT, core.BUILD, self.work("astcache", "x")[:-2])
         except mod.Lost as e:
             raise core.TieBroken("translator:C19:anchor-lost", str(e))
         self.tables = t
@@ -156,7 +168,10 @@ class C19(Check):
                                           "guarded": [k for k, v in self.tables["nodeGuards"] if v],
                                           "natives": len(self.tables["natives"]),
                                           "natives_safe": sum(1 for _, v in self.tables["natives"] if v),
-                                          "callCheck": self.tables["callCheck"], "fieldCheck": self.tables["fieldCheck"]}} if hasattr(self, "tables") else {}
+                                          "callCheck": self.tables["callCheck"], "fieldCheck": self.tables["fieldCheck"],
+                                          "initDictOff": self.tables["initDictOff"], "refGetSandboxed": self.tables["refGetSandboxed"],
+                                          "extractor": self.tables["method"], "ast_vs_token_level_disagreements": self.tables["ast_text_disagree"]},
+                     "translator_selftest": getattr(self, "translator_selftest", {})} if hasattr(self, "tables") else {}
 
         seen = set()
         per_clause = {}
@@ -227,7 +242,7 @@ class C19(Check):
             # exactly: sandboxed console, evaluation succeeded, nothing changed, and the secret occurs ONLY as the
             # `password` field of a config object that the console serialised (leak=2), never in a computed value
             return ("clause=no_hidden_value_in_result" in drv and "leak=2" in drv and d.get("site") == "console"
-                    and obs.startswith("ok chg=--- ") and obs.endswith("leak=2"))
+                    and obs.startswith("ok chg=--- ") and " leak=2" in (" " + obs) and (" inv=" not in obs or obs.rstrip().endswith(" inv=0")))
         return False
 
     def replay(self, path, harness, driver):
